@@ -308,7 +308,26 @@ func (b *Built) Chain() []*Built {
 
 // Deliver hands a block to a node the way p2p does and returns the node's reply.
 // mode 0: broadcast (EventBroadcastAddBlock), 1: sync (EventSyncBlock).
+//
+// mode 2: the fast-download path (the block is written to temporary storage and
+// then executed from there with peer id "download"); that path only handles a
+// block that extends the current tip, otherwise the sync path is used.
 func Deliver(n *simnode.Node, blk *types.Block, mode int, pid string) (ok bool, errText string) {
+	if mode == 2 {
+		if h, err := n.API.GetLastHeader(); err == nil && bytes.Equal(h.Hash, blk.ParentHash) {
+			before := n.Chain.GetBlockHeight()
+			if err := n.Chain.WriteBlockToDbTemp(types.Clone(blk).(*types.Block), true); err != nil {
+				simrt.Failf("WriteBlockToDbTemp: %v", err)
+			}
+			n.Chain.ReadBlockToExec(blk.Height, false)
+			simrt.Settle()
+			if n.Chain.GetBlockHeight() > before {
+				return true, ""
+			}
+			return false, "download path did not connect the block"
+		}
+		mode = 1
+	}
 	ty := int64(types.EventBroadcastAddBlock)
 	if mode == 1 {
 		ty = types.EventSyncBlock
